@@ -2,15 +2,16 @@
 # usage: lib/seedrun_wt.sh <Cxx> <worktree> <patch.diff> [tier] — like seedrun.sh, but against a scratch
 # worktree (VERIF_REPO) instead of /repo: for use while something else needs /repo untouched.
 set -u
+HERE=$(cd "$(dirname "$0")/.." && pwd)
 P=$1; WT=$2; PATCH=$3; TIER=${4:-quick}
 cd "$WT" || exit 2
 git checkout -q -- . ; git clean -fdq
 git apply "$PATCH" || { echo "patch does not apply"; exit 2; }
-cd "$(dirname "$0")/.."
+cd "$HERE"
 VERIF_REPO="$WT" timeout 2400 ./check "$P" --tier "$TIER" > /tmp/seedrunwt.$$.out 2> /tmp/seedrunwt.$$.err
 RC=$?
 git -C "$WT" checkout -q -- . ; git -C "$WT" clean -fdq
 echo "rc=$RC"; grep -E "^(VIOLATION|OK|KNOWN)" /tmp/seedrunwt.$$.out | cut -c1-200; grep -E "^\[$P\]" /tmp/seedrunwt.$$.err | cut -c1-300 | head -4
 rm -f /tmp/seedrunwt.$$.out /tmp/seedrunwt.$$.err
 # the generated facts and binaries now reflect the worktree: bring them back to /repo
-python3 -c "import sys; sys.path.insert(0,'$(dirname "$0")'); import core; core.extract()" > /dev/null 2>&1
+python3 -c "import sys; sys.path.insert(0,'$HERE/lib'); import core; core.extract()" > /dev/null 2>&1
